@@ -70,6 +70,10 @@ func main() {
 
 type scfg struct{ stream, small bool }
 
+// violations in this input domain are attributed separately: streamed request bodies,
+// fixed Content-Length above MaxRequestBodySize (see the finding in known_findings.txt)
+const overLimitTag = "streamed-cl-over-limit"
+
 type sengine struct {
 	e           *route.Engine
 	mu          sync.Mutex
@@ -164,6 +168,7 @@ func work(w *mon.W) {
 	}
 	w.Cases("server", uint64(w.Pick(300000, 6000000)), func(c *mon.Case) { serverCase(w, c, get) })
 	w.Cases("too-large", uint64(w.Pick(6000, 100000)), func(c *mon.Case) { tooLarge(w, c, get) })
+	w.Cases("limit-boundary", uint64(w.Pick(4000, 60000)), func(c *mon.Case) { limitBoundary(w, c, get) })
 	w.Cases("client", uint64(w.Pick(100000, 2000000)), func(c *mon.Case) { clientCase(w, c) })
 	w.Cases("parsers-mutated", uint64(w.Pick(150000, 3000000)), func(c *mon.Case) { parsersMutated(w, c) })
 	w.Cases("parsers-exhaustive", uint64(w.Pick(1, 1)), func(c *mon.Case) { parsersExhaustive(w, c) })
@@ -284,6 +289,9 @@ func serverCase(w *mon.W, c *mon.Case, get func(scfg) *sengine) {
 	}
 	for i := 0; i < nreq; i++ {
 		a := wire.GenRequest(r, fmt.Sprintf("m%d", c.I), i, i == nreq-1, opts)
+		if cf.stream && cf.small && a.Framing == "cl" && len(a.Body) > 2000 {
+			c.KeyTag = overLimitTag // see known_findings.txt
+		}
 		if r.Chance(5) {
 			a.Hdrs = append(a.Hdrs, wire.Field{K: "Content-Type", V: r.Str("multipart/form-data; boundary=xx", "application/x-www-form-urlencoded", "multipart/form-data; boundary=\"a b\"")})
 			if a.Framing != "none" {
@@ -387,6 +395,87 @@ func tooLarge(w *mon.W, c *mon.Case, get func(scfg) *sengine) {
 		return
 	}
 	w.Shape(mon.Hash64("toolarge", n, chunked, pre, policy))
+}
+
+// limitBoundary: bodies of exactly the limit, one less and one more (MaxRequestBodySize
+// 2000), buffered and streamed, fixed-length and chunked, followed by a pipelined request.
+// At or below the limit both requests must be served; above it the buffered engine must
+// reject (tooLarge's oracle); in every case the crash / strict-output oracles apply and the
+// handler that reads the streamed body must see exactly the body.
+func limitBoundary(w *mon.W, c *mon.Case, get func(scfg) *sengine) {
+	r := c.R
+	cf := scfg{stream: r.Bool(), small: true}
+	en := get(cf)
+	n := r.Int(1, 1998, 1999, 2000, 2000, 2000, 2001, 2002, 2047, 2049)
+	body := wire.PosBody(0, n)
+	var stream []byte
+	chunked := r.Chance(3)
+	if chunked {
+		stream = append(stream, "POST /edge HTTP/1.1\r\nHost: h\r\nTransfer-Encoding: chunked\r\n\r\n"...)
+		b := body
+		for len(b) > 0 {
+			k := r.Int(1, 100, 1999, 2000, 2001)
+			if k > len(b) {
+				k = len(b)
+			}
+			stream = append(stream, fmt.Sprintf("%x\r\n", k)...)
+			stream = append(stream, b[:k]...)
+			stream = append(stream, "\r\n"...)
+			b = b[k:]
+		}
+		stream = append(stream, "0\r\n\r\n"...)
+	} else {
+		stream = append(stream, fmt.Sprintf("POST /edge HTTP/1.1\r\nHost: h\r\nContent-Length: %d\r\n\r\n", n)...)
+		stream = append(stream, body...)
+	}
+	npipe := r.Intn(3)
+	if cf.stream && !chunked && n > 2000 {
+		c.KeyTag = overLimitTag
+	}
+	for i := 0; i < npipe; i++ {
+		stream = append(stream, fmt.Sprintf("GET /after%d HTTP/1.1\r\nHost: h\r\n\r\n", i)...)
+	}
+	frags, policy := wire.FragSchedule(r, stream, nil)
+	en.mu.Lock()
+	en.entries, en.handled, en.lastBodyErr = nil, nil, false
+	en.mu.Unlock()
+	buf := r.Int(4096, 4096, 100, 8192)
+	c.Detail = func() interface{} {
+		return map[string]interface{}{"family": "limit-boundary", "config": fmt.Sprintf("%+v", cf), "body": n, "chunked": chunked, "pipelined": npipe, "buf": buf, "policy": policy, "frag_sizes": wire.FragSizes(frags)}
+	}
+	sc := sconn.New(frags, sconn.EOF)
+	res := rig.Serve(en.e, sc, buf, false, 20*time.Second)
+	w.Count("limit_boundary_cases", 1)
+	judge(w, c, en, res, stream)
+	if c.Violated() {
+		return
+	}
+	msgs, _ := wire.ParseResponses(res.Out, nil, true)
+	var st []int
+	for _, m := range msgs {
+		st = append(st, m.Status)
+	}
+	switch {
+	case n <= 2000:
+		ok := len(st) == 1+npipe
+		for _, x := range st {
+			ok = ok && x == 200
+		}
+		if !ok {
+			c.Violate("limit-boundary-status", "body of %d bytes (limit 2000, stream=%v chunked=%v) + %d pipelined requests: statuses %v, want %d x 200", n, cf.stream, chunked, npipe, st, 1+npipe)
+			return
+		}
+		w.Count("limit_boundary_at_or_below_served", 1)
+	case !cf.stream:
+		if len(st) != 1 || st[0] != 413 {
+			c.Violate("limit-boundary-status", "buffered body of %d bytes (limit 2000, chunked=%v): statuses %v, want a single 413", n, chunked, st)
+			return
+		}
+		w.Count("limit_boundary_above_rejected", 1)
+	default:
+		w.Count("limit_boundary_above_streamed_judged_only", 1)
+	}
+	w.Shape(mon.Hash64("edge", n, chunked, cf.stream, npipe, buf, policy))
 }
 
 // ---- client --------------------------------------------------------------------
